@@ -77,7 +77,7 @@ package invocation
 //@   requires forall i int, j int :: 0 <= i && i < len(delegations) && 0 <= j && j < len(delegations[i].policy) ==> delegations[i].policy[j] != nil
 //@   ensures [C03] sound: result == nil ==> argsNodeErr(arguments) == nil && argsOK(delegations, argsNode(arguments))
 //@   ensures [C05] complete: argsNodeErr(arguments) == nil && argsOK(delegations, argsNode(arguments)) ==> result == nil
-//@   assigns arguments.Keys
+//@   assigns [C20] nothing
 //@   loop 0: invariant 0 <= k && k <= len(t.proof)
 //@           decreases len(t.proof) - k
 //@   loop 1: invariant 0 <= k && k <= len(t.proof) && fresh(policies)
@@ -111,17 +111,70 @@ package invocation
 //@   requires t != nil && loader != nil && arguments != nil && wfLoaded(t, loader)
 //@   ensures [C01,C02,C03,C04] sound: result == nil ==> allowedSpec(t, loader, arguments)
 //@   ensures [C05] complete: allowedSpec(t, loader, arguments) ==> result == nil
-//@   assigns arguments.Keys
+//@   assigns [C20] nothing
 //@
 //@ func (*Token).ExecutionAllowed
 //@   requires t != nil && loader != nil && t.arguments != nil && wfLoaded(t, loader)
 //@   ensures [C01,C02,C03,C04] sound: result == nil ==> allowedSpec(t, loader, t.arguments)
 //@   ensures [C05] complete: allowedSpec(t, loader, t.arguments) ==> result == nil
-//@   assigns t.arguments.Keys
+//@   assigns [C20] nothing
 //@
 //@ func (*Token).ExecutionAllowedWithArgsHook
 //@   requires t != nil && loader != nil && t.arguments != nil && hook != nil && wfLoaded(t, loader)
 //@   requires forall ro args.ReadOnly :: fnres1(hook, ro) == nil ==> fnres0(hook, ro) != nil
 //@   ensures [C03] hooked: result == nil ==> (forall ro args.ReadOnly :: ro.args == t.arguments ==> fnres1(hook, ro) == nil && allowedSpec(t, loader, fnres0(hook, ro)))
 //@   ensures [C05] complete: (forall ro args.ReadOnly :: ro.args == t.arguments ==> fnres1(hook, ro) == nil && allowedSpec(t, loader, fnres0(hook, ro))) ==> result == nil
-//@   assigns anything
+//@   assigns [C20] nothing
+//@
+//@ // ---- C20: accessors and other read-only operations write nothing ---------------------------------
+//@ func (*Token).Issuer
+//@   inline
+//@   requires t != nil
+//@   assigns [C20] nothing
+//@ func (*Token).Subject
+//@   inline
+//@   requires t != nil
+//@   assigns [C20] nothing
+//@ func (*Token).Audience
+//@   inline
+//@   requires t != nil
+//@   assigns [C20] nothing
+//@ func (*Token).Command
+//@   inline
+//@   requires t != nil
+//@   assigns [C20] nothing
+//@ func (*Token).Arguments
+//@   inline
+//@   requires t != nil
+//@   assigns [C20] nothing
+//@ func (*Token).Proof
+//@   inline
+//@   requires t != nil
+//@   assigns [C20] nothing
+//@ func (*Token).Meta
+//@   inline
+//@   requires t != nil
+//@   assigns [C20] nothing
+//@ func (*Token).Nonce
+//@   inline
+//@   requires t != nil
+//@   assigns [C20] nothing
+//@ func (*Token).Expiration
+//@   inline
+//@   requires t != nil
+//@   assigns [C20] nothing
+//@ func (*Token).InvokedAt
+//@   inline
+//@   requires t != nil
+//@   assigns [C20] nothing
+//@ func (*Token).Cause
+//@   inline
+//@   requires t != nil
+//@   assigns [C20] nothing
+//@ func (*Token).IsValidNow
+//@   requires t != nil
+//@   assigns [C20] nothing
+//@ func (*Token).verifyTimeBound
+//@   inline
+//@   requires t != nil && len(dlgs) == len(t.proof) && forall i int :: 0 <= i && i < len(dlgs) ==> dlgs[i] != nil
+//@   assigns [C20] nothing
